@@ -31,12 +31,18 @@ ASSUMPTIONS = [
     'request_type= and the deprecated effective_principals= predicates are not covered',
 ]
 TRUSTED = [
+    'translator harness/c03/translate.py: its PRIMITIVE TABLE (ATTR / METHODS / CALLS / PROJ / idioms / glue: which Python leaf '
+    'means which primitive of Model/C03.v or of the prelude of Gen/Facts_C03_gen.v) and its mechanical statement-to-term rules',
     'hand-written model coq/Model/C03.v of PredicateList.make, the built-in predicate classes, MultiView, register_view, '
     '_find_views and _call_view (all shape-pinned)',
     'attribute propagation through the view derivers (only the outermost attr_wrapped_view / predicated_view wrappers are modelled)',
 ]
-TECHNIQUE = ('Coq proof (induction over registration lists and resolution orders; Z arithmetic over the translated order '
-             'expression) on a hand-written Gallina model + extracted-model differential correspondence through Router.__call__')
+TECHNIQUE = ('Coq proof about a Gallina program whose control flow is translated from the Python source on every run '
+             '(harness/c03/translate.py -> Gen/Facts_C03_gen.v: _find_views, _call_view, MultiView.get_views/match/__call__, '
+             'predicated_view and its wrappers, PredicateList.make, the __call__ of the 12 stock predicate classes), proved equal to '
+             'the hand-written reference model (Proofs/C03_gen.v), with the property theorems (induction over registration lists and '
+             'resolution orders; Z arithmetic) restated about the regenerated lookup + extracted-model differential correspondence '
+             'through Router.__call__ (the runner answers with the regenerated program)')
 LEVEL_TEXT = ('Machine-checked theorems over the executable model, for registration lists, requests and resolution orders of '
               'any size: the body that runs belongs to a registration of the looked-up name whose interfaces lie in the two '
               'resolution orders and whose predicates all hold; no qualifying registration is strictly more specific '
@@ -44,7 +50,9 @@ LEVEL_TEXT = ('Machine-checked theorems over the executable model, for registrat
               'configurations without accept= and refuted by a witness with accept= (open finding); Not Found exactly when '
               'nothing qualifies; a MultiView is sorted by order; more predicates give a smaller order within the stated '
               'arithmetic bound (tightness refuted beyond it); one characterisation lemma per built-in predicate.')
-LEVEL_NOTE = ('Trusted: Coq kernel; the hand-written model (shape-pinned, validated by correspondence); Python harness; '
+LEVEL_NOTE = ('Trusted: Coq kernel; the translator\'s primitive table (control flow of the lookup, make and the predicate bodies is '
+              'regenerated, not pinned); the hand-written model of the functions that are still pinned (MultiView.add, register_view, '
+              'attr_wrapped_view, sort_accept_offers, predicate constructors; validated by correspondence); Python harness; '
               'zope.interface, WebOb and re as oracles. The specificity theorem assumes duplicate-free resolution orders, '
               'no two registrations with the same (slot, phash), orders computed by make within the bound, and no accept=.')
 
